@@ -344,6 +344,9 @@ var c09Derive = []string{
 	"h.mapReduce([v], (acc,x)->acc.append(x))",
 	"h.reduce((p,q)->p+q)",
 	"g.indexWhere(x->x>v)",
+	// boundary and out-of-range parameters of the view operations
+	"h.skip(0-i)", "h.top(0-i)", "h.skip(i-2)", "h.top(i-2)", "h.skip(i+v)", "h.top(i+v)", "h.skip(0-1).map(x->x)", "h.top(i).skip(0-i)",
+	"h.skip(i).skip(0-i).append(v)", "h.map(x->x).skip(0-2)", "h.set(0-i, v)", "h.combineN(0-i, l->l)", "h.movingWindow(x->0-x)",
 	// nested values handed out by an operation (windows, groups, buffers, accumulators), extended afterwards
 	"h.movingWindow(x->x)[i].append(v)",
 	"h.movingWindow(x->x).map(w->w.append(v))",
